@@ -6,18 +6,50 @@ class Built:
     pass
 
 
+class _Le:
+    """lhs <= rhs, recorded unevaluated so that a multiplier can be applied to both sides."""
+
+    def __init__(self, lhs, rhs):
+        self.lhs, self.rhs = lhs, rhs
+
+    def __le__(self, rhs):
+        raise TypeError
+
+
+class _Scaled(list):
+    """list of constraints; `append(_Le(f, r))` with self.mult = c writes  c*f <= c*r  (c > 0)  or  c*f >= c*r  (c < 0)."""
+    mult = None
+
+    def append(self, con):
+        if isinstance(con, _Le):
+            c = self.mult
+            if c is None:
+                con = con.lhs <= con.rhs
+            elif c > 0:
+                con = c * con.lhs <= c * con.rhs
+            else:
+                con = c * con.lhs >= c * con.rhs
+        list.append(self, con)
+
+    def __iadd__(self, cons):
+        for con in cons:
+            self.append(con)
+        return self
+
+
 def set_constraints(rso, z, pieces, d):
     """List of rsome constraints on random variable z describing the intersection of `pieces`."""
-    out = []
+    out = _Scaled()
     for pc in pieces:
         k = pc['k']
         st = pc.get('style')
+        out.mult = pc.get('mult')
         if k == 'box':
             lo, hi = np.array(pc['lo'], float), np.array(pc['hi'], float)
             if st in (None, 'bounds'):
                 out += [z >= lo, z <= hi]
             elif st == 'abs':
-                out += [abs(z - (lo + hi) / 2) <= (hi - lo) / 2]
+                out += [_Le(abs(z - (lo + hi) / 2), (hi - lo) / 2)]
             elif st == 'rows':
                 out += [np.eye(d) @ z <= hi, -1.0 * z <= -lo]
             elif st == 'entry':
@@ -28,34 +60,34 @@ def set_constraints(rso, z, pieces, d):
             else:
                 raise ValueError(st)
         elif k == 'ninf':
-            out.append(rso.norm(z - np.array(pc['c'], float), 'inf') <= pc['r'])
+            out.append(_Le(rso.norm(z - np.array(pc['c'], float), 'inf'), pc['r']))
         elif k == 'n1':
-            out.append(rso.norm(z - np.array(pc['c'], float), 1) <= pc['r'])
+            out.append(_Le(rso.norm(z - np.array(pc['c'], float), 1), pc['r']))
         elif k == 'n2':
             c = np.array(pc['c'], float)
             e = z - c
             if 'M' in pc:
                 M = np.array(pc['M'], float)
                 if st == 'quad':
-                    out.append(rso.quad(e, M.T @ M) <= pc['r'] ** 2)
+                    out.append(_Le(rso.quad(e, M.T @ M), pc['r'] ** 2))
                 else:
-                    out.append(rso.norm(M @ e) <= pc['r'])
+                    out.append(_Le(rso.norm(M @ e), pc['r']))
             elif st in (None, 'norm'):
-                out.append(rso.norm(e) <= pc['r'])
+                out.append(_Le(rso.norm(e), pc['r']))
             elif st == 'norm2':
-                out.append(rso.norm(e, 2) <= pc['r'])
+                out.append(_Le(rso.norm(e, 2), pc['r']))
             elif st == 'sumsqr':
-                out.append(rso.sumsqr(e) <= pc['r'] ** 2)
+                out.append(_Le(rso.sumsqr(e), pc['r'] ** 2))
             elif st == 'quad':
-                out.append(rso.quad(e, np.eye(d)) <= pc['r'] ** 2)
+                out.append(_Le(rso.quad(e, np.eye(d)), pc['r'] ** 2))
             elif st == 'square':
-                out.append(rso.square(e) <= pc['r'] ** 2)
+                out.append(_Le(rso.square(e), pc['r'] ** 2))
             else:
                 raise ValueError(st)
         elif k == 'pn':
             p = pc['p']
             p = tuple(p) if isinstance(p, list) else p
-            out.append(rso.pnorm(z - np.array(pc['c'], float), p, pc.get('method')) <= pc['r'])
+            out.append(_Le(rso.pnorm(z - np.array(pc['c'], float), p, pc.get('method')), pc['r']))
         elif k == 'lin':
             out.append(np.array(pc['A'], float) @ z <= np.array(pc['b'], float))
         elif k == 'eq':
@@ -74,7 +106,25 @@ def set_constraints(rso, z, pieces, d):
             out.append(rso.exp(z[pc['i']]) <= z[pc['j']])
         else:
             raise ValueError(k)
-    return out
+    return list(out)
+
+
+def _set_args(cs, attach):
+    """The ways a set (list of constraints) can be handed to minmax / maxmin / forall."""
+    cs = list(cs)
+    if attach == 'list':
+        return (cs,)
+    if attach == 'args':
+        return tuple(cs)
+    if attach == 'gen':
+        return ((c for c in cs),)
+    if attach == 'mixed':        # bare constraint(s) first, an iterable last
+        return tuple(cs[:1]) + (cs[1:],) if len(cs) > 1 else (cs,)
+    if attach == 'lists':        # several iterables
+        return (cs[:1], tuple(cs[1:])) if len(cs) > 1 else (cs,)
+    if attach == 'listbare':     # an iterable first, bare constraints after it
+        return (cs[:-1],) + tuple(cs[-1:]) if len(cs) > 1 else (cs,)
+    raise ValueError(attach)
 
 
 def _expr(rso, b, row, style):
@@ -194,6 +244,10 @@ def build(rsome, spec):
                     if mask[j, i]:
                         y[j].adapt(z[i])
                         b.ops += 1
+    if spec.get('late_rvar'):
+        # a further random variable declared after the adaptation calls and before the rule is first used
+        b.u = m.rvar()
+        b.ops += 1
     sets = {}
 
     def get_set(name):
@@ -218,12 +272,7 @@ def build(rsome, spec):
             getattr(m, o['kind'])(e)
         else:
             cs = get_set(spec['default'])
-            if o.get('attach', 'list') == 'list':
-                getattr(m, o['kind'])(e, cs)
-            elif o['attach'] == 'args':
-                getattr(m, o['kind'])(e, *cs)
-            else:   # generator
-                getattr(m, o['kind'])(e, (c for c in cs))
+            getattr(m, o['kind'])(e, *_set_args(cs, o.get('attach', 'list')))
         b.ops += 2
 
     if spec.get('obj_first', True):
@@ -254,7 +303,7 @@ def build(rsome, spec):
             con = (G <= 0) if sense == '<=' else (G >= 0) if sense == '>=' else (G == 0)
             if name is not None and hasattr(con, 'forall'):
                 cs = get_set(name)
-                con = con.forall(cs) if attach == 'list' else con.forall(*cs)
+                con = con.forall(*_set_args(cs, attach))
             m.st(con)
             b.ops += 4 + R
     if spec.get('pw') and not spec.get('vec'):
@@ -273,7 +322,7 @@ def build(rsome, spec):
             con = (pwf <= 0) if sense == '<=' else (pwf >= 0)
             if name is not None:
                 cs = get_set(name)
-                con = con.forall(cs) if attach == 'list' else con.forall(*cs)
+                con = con.forall(*_set_args(cs, attach))
             m.st(con)
             b.ops += 3 + len(grp)
     for row in rows_iter:
@@ -290,7 +339,7 @@ def build(rsome, spec):
         name = row.get('set')
         if name is not None and hasattr(con, 'forall'):
             cs = get_set(name)
-            con = con.forall(cs) if row.get('attach', 'list') == 'list' else con.forall(*cs)
+            con = con.forall(*_set_args(cs, row.get('attach', 'list')))
             b.ops += 1
         m.st(con)
         b.ops += 2
